@@ -159,6 +159,131 @@ def run_case(run, e2, harnesses, case):
     return v, out
 
 
+def tls_shard(sh):
+    """A TLS listener (the repository's example certificate), with the handshake done lazily or at accept time
+    (do_handshake_on_connect): peers that speak clear text to it, that leave or reset before or during the handshake, that send
+    half a ClientHello, and hostile HTTP inside a proper TLS session.  The same worker processes must go on serving."""
+    import os
+    import socket
+    import ssl
+    import struct
+    import time
+    from vlib import e4_live as e4
+    run = Run(PROP, sh.get("tier", "quick"), sh["seed"], "fault_enumeration", RULE)
+    wc = sh["class"]
+    rng = rng_for(sh["seed"], "c05-tls", wc, sh["on_connect"])
+    crt, key = os.path.join(common.REPO, "examples", "server.crt"), os.path.join(common.REPO, "examples", "server.key")
+    if not (os.path.exists(crt) and os.path.exists(key)):
+        run.inconclusive_because("example certificate not found in the tree")
+        return run
+    settings = {"keepalive": 2, "graceful_timeout": 2, "timeout": 30, "certfile": crt, "keyfile": key,
+                "do_handshake_on_connect": bool(sh["on_connect"])}
+    if wc == "gthread":
+        settings["threads"] = 2
+    srv = e4.Server("c05t", worker_class=wc, workers=2, settings=settings)
+    ctx = ssl.create_default_context()
+    ctx.check_hostname = False
+    ctx.verify_mode = ssl.CERT_NONE
+
+    def probe():
+        try:
+            c = ctx.wrap_socket(socket.create_connection(srv.addr, 5))
+            c.settimeout(8)
+            c.sendall(b"GET /pid HTTP/1.1\r\nHost: p\r\nConnection: close\r\n\r\n")
+            buf = b""
+            while True:
+                d = c.recv(65536)
+                if not d:
+                    break
+                buf += d
+            c.close()
+            return buf.startswith(b"HTTP/1.1 200") and buf.endswith(b"|END"), buf[:80]
+        except (OSError, ssl.SSLError) as e:
+            return False, repr(e)
+
+    hello = None
+    try:
+        srv.start()
+        w0 = srv.wait_workers(2, 25)
+        ok = False
+        t0 = time.monotonic()
+        while w0 and time.monotonic() - t0 < 8 and not ok:
+            ok, _ = probe()
+        if not w0 or not ok:
+            run.inconclusive_because("live TLS server (%s) did not come up: %s" % (wc, srv.stderr()[-200:]))
+            return run
+        # a real ClientHello to cut into pieces: record what our own TLS stack sends first
+        inc, outg = ssl.MemoryBIO(), ssl.MemoryBIO()
+        o = ctx.wrap_bio(inc, outg, server_hostname="h")
+        try:
+            o.do_handshake()
+        except ssl.SSLWantReadError:
+            pass
+        hello = outg.read()
+        kinds = ["clear-text", "clear-text-rst", "connect-close", "connect-rst", "hello-cut", "hello-cut-rst", "garbage", "tls-inner-hostile",
+                 "hello-then-close"]
+        for k in range(sh["n"]):
+            if run.enough(3):
+                break
+            kind = kinds[k % len(kinds)]
+            try:
+                c = socket.create_connection(srv.addr, 5)
+                rst = kind.endswith("-rst")
+                if kind.startswith("clear-text"):
+                    c.sendall(rng.choice(BASE_REQUESTS))
+                elif kind.startswith("hello-cut"):
+                    c.sendall(hello[:rng.randint(1, len(hello) - 1)])
+                elif kind == "hello-then-close":
+                    c.sendall(hello)
+                elif kind == "garbage":
+                    c.sendall(bytes(rng.randrange(256) for _ in range(rng.randint(1, 600))))
+                elif kind == "tls-inner-hostile":
+                    t = ctx.wrap_socket(c)
+                    t.settimeout(6)
+                    t.sendall(gen.gen_stream(rng, hostile=0.9, sentinel=False)[:4000])
+                    try:
+                        t.shutdown(socket.SHUT_WR)
+                    except (OSError, ssl.SSLError):
+                        pass
+                    try:
+                        while t.recv(65536):
+                            pass
+                    except (OSError, ssl.SSLError):
+                        pass
+                    c = t
+                if rst:
+                    c.setsockopt(socket.SOL_SOCKET, socket.SO_LINGER, struct.pack("ii", 1, 0))
+                elif kind in ("clear-text", "garbage") and rng.random() < 0.5:
+                    c.settimeout(3)
+                    try:
+                        c.recv(65536)
+                    except OSError:
+                        pass
+                c.close()
+            except (OSError, ssl.SSLError):
+                pass
+            run.case(("tls", wc, sh["on_connect"], kind, k))
+            run.count("tls_inputs")
+            run.count("tls_kind/" + kind)
+            if k % 9 == 8 or k == sh["n"] - 1:
+                time.sleep(0.3)
+                ok, what = probe()
+                run.count("tls_liveness_probes")
+                ws = srv.worker_pids()
+                if not ok:
+                    run.violation("live/server-does-not-serve-next-connection", "%s (TLS, do_handshake_on_connect=%s): probe after %s -> %s" % (
+                        wc, sh["on_connect"], kind, what), {"tls": wc, "on_connect": sh["on_connect"], "last_kind": kind})
+                if set(ws) != set(w0):
+                    run.violation("live/worker-died-on-hostile-input", "%s (TLS, do_handshake_on_connect=%s): worker pids changed from %s to %s "
+                                  "within the last 9 connections (kinds %s): %s" % (
+                                      wc, sh["on_connect"], w0, ws, kinds, [ln for ln in srv.error_log().splitlines() if "rror" in ln][-2:]),
+                                  {"tls": wc, "on_connect": sh["on_connect"], "last_kind": kind})
+                    w0 = ws
+    finally:
+        srv.cleanup()
+    return run
+
+
 def live_shard(sh):
     # A sample of the same inputs against a real server of one worker class over TCP, including connections the client resets
     # (SO_LINGER 0): no request may reach the application that the strict reading rejects, and the same worker processes must
@@ -318,6 +443,8 @@ def live_shard(sh):
 
 
 def shard(sh):
+    if sh.get("kind") == "tls":
+        return tls_shard(sh)
     if sh.get("kind") == "live":
         return live_shard(sh)
     from vlib import e2_worker as e2
@@ -433,7 +560,11 @@ def main(tier, seed):
     shards += [{"kind": "random", "n": 800 if q else 15000, "sub": i, "seed": seed, "tier": tier} for i in range(10 if q else 32)]
     shards += [{"kind": "live", "class": c, "n": 150 if q else 1500, "seed": seed, "tier": tier}
                for c in ("sync", "gthread", "gevent", "eventlet")]
-    run.require("live_inputs", "live_liveness_probes", "live_mode/rst", "live_keepalive_hold_histories")
+    tls_classes = ["sync", "gthread", "gevent", "eventlet"]
+    for i, c in enumerate(tls_classes if not q else ["sync", tls_classes[1 + seed % 3]]):
+        for oc in (True, False):
+            shards.append({"kind": "tls", "class": c, "on_connect": oc, "n": 45 if q else 360, "seed": seed, "tier": tier})
+    run.require("live_inputs", "live_liveness_probes", "live_mode/rst", "live_keepalive_hold_histories", "tls_inputs", "tls_liveness_probes")
     run.assumptions = [
         "live sub-tier: 150 hostile / truncated / reset (SO_LINGER 0) connections per worker class against real servers over TCP; judged: "
         "the server keeps serving and no worker pid changes",
